@@ -66,6 +66,8 @@ def build_cases(chk, *, n_synth, configs, real, which, budget_s, spec_fn=None, r
                 chk.spec_drift(f"amplitude term shape not understood ({label}): {ex}")
                 continue
             rec["label"] = label
+            # (which chains share a coefficient depends on the child-helicity / LS flags of the name generator)
+            rec["default_naming"] = int("insert_child_helicities" not in cfg and "insert_ls_combinations" not in cfg)
             rec["cfg"] = {k: (sorted(v) if isinstance(v, (set, frozenset)) else v) for k, v in cfg.items()}
             out.append((label, reaction, cfg, model, rec))
             rid += 1
